@@ -82,3 +82,115 @@ contract(Contract(
         ('return "\\n".join(wrapped_segments)', 'return " ".join(wrapped_segments)', None, ["post[many.join"]),
     ],
 ))
+
+# --------------------------------------------------------------------------- line_wrap_by_sentence.<locals>.line_wrapper  (contract V)
+V_DEFS = {
+    "base_col()": "ite(first0, len_fn(initial_indent), len_fn(subsequent_indent))",
+    "carry()": "len(L0) > 0 and len_fn(L0[len(L0) - 1]) < min_line_len",
+    "merge()": "len(L0) > 0 and len(w0) > 0 and len_fn(L0[len(L0) - 1]) < min_line_len"
+               " and len_fn(L0[len(L0) - 1]) + 1 + len_fn(w0[0]) <= width",
+    "prefix(k)": "ite(k == 0, initial_indent, subsequent_indent)",
+    # column at which the (short) last line will really stand once the indents are inserted
+    "lastcol()": "ite(len(L0) == 1, len_fn(initial_indent), len_fn(subsequent_indent))",
+}
+
+
+def v_setup(ex):
+    w_setup(ex)
+
+
+def w_callee_len_fn(ex, env, bound):
+    """line_wrap_by_sentence calls wrap_paragraph_lines with its *default* len_fn (builtin len) while it
+    measures the lines with the wrapper's own len_fn; every wrapper flowmark builds uses len for both.
+    Assumption (reported): the two coincide."""
+    from vfcore.values import VFunc
+    w_setup(ex)
+    bound["len_fn"] = VFunc("len_fn", "callee", Callee("uf", ret="int", sig=["s"]))
+    env["len_fn"] = bound["len_fn"]
+
+
+contract(Contract(
+    target=M + ":line_wrap_by_sentence.<locals>.line_wrapper",
+    props=["C11", "C05", "C03"],
+    params={"text": "str", "initial_indent": "str", "subsequent_indent": "str"},
+    free={"width": "int", "len_fn": "callable", "is_markdown": "bool", "min_line_len": "int",
+          "split_sentences": "callable"},
+    types={"lines": "list[str]", "wrapped": "list[str]", "L0": "list[str]", "w0": "list[str]", "first0": "bool",
+           "first_line": "bool", "current_column": "int", "sentence": "str", "pre": "list[str]"},
+    setup=v_setup,
+    calls={
+        "len_fn": Callee("uf", ret="int", sig=["s"]),
+        "split_sentences": Callee("uf", ret="list[str]", sig=["text"]),
+        "wrap_paragraph_lines": Callee("contract", ret="list[str]", target=TW + ":wrap_paragraph_lines"),
+        "denormalize_adjacent_tags": Callee("uf", ret="str", sig=["text"]),
+        "re.sub": Callee("uf", ret="str", sig=["pattern", "repl", "string"]),
+    },
+    at_call={"wrap_paragraph_lines": {
+        # each sentence is wrapped on its own, at the configured width, continuing in the column where a
+        # short previous line ends (C11 "each sentence wrapped on its own; short last line merged")
+        "text": Clause("arg_text == sentence", props=["C11"]),
+        "width": Clause("arg_width == width", props=["C05", "C11"]),
+        # from the property: the sentence continues in the column where it would really stand if merged
+        # (indent of the short last line + its text + the joining space), else at the line's own indent.
+        # Known finding on this tree (joining space and first-line indent are not accounted for).
+        "initial_column": Clause("arg_initial_column == ite(carry(), lastcol() + len_fn(L0[len(L0) - 1]) + 1, base_col())",
+                                 props=["C05", "C11"], finding="C11-carry-column"),
+        "initial_column.residual": Clause("implies(not carry(), arg_initial_column == base_col())", props=["C05", "C11"]),
+        "initial_column.as_coded": Clause("arg_initial_column == base_col() + ite(carry(), len_fn(L0[len(L0) - 1]), 0)", props=["C11"]),
+        "subsequent_offset": Clause("arg_subsequent_offset == len_fn(subsequent_indent)", props=["C05"]),
+        "is_markdown": Clause("arg_is_markdown == is_markdown", props=["C01", "C05"]),
+    }},
+    ghost={"L0": "[]", "w0": "[]", "first0": "True", "pre": "[]"},
+    hooks=[
+        ("before", "assign:current_column@loop", "L0 = list(lines); first0 = first_line"),
+        ("after", "assign:wrapped", "w0 = list(wrapped)"),
+        ("before", "if initial_indent and len(lines) > 0", "pre = list(lines)"),
+    ],
+    defs=V_DEFS,
+    loops={0: Loop(
+        inv={"first": "first_line == (_i == 0)", "first_empty": "implies(_i == 0, len(lines) == 0)"},
+        modifies=["L0", "w0", "first0"],
+        body_ensures={
+            # strongest per-iteration postcondition: either the sentence's first wrapped line is merged into a
+            # short last line (and only then), or the wrapped lines are appended; nothing before the last line moves
+            "structure.merge": Clause(
+                "implies(merge(), len(lines) == len(L0) + len(w0) - 1"
+                " and lines[len(L0) - 1] == L0[len(L0) - 1] + ' ' + w0[0]"
+                " and all(implies(k >= 1, lines[len(L0) - 1 + k] == w0[k]) for k in range(len(w0)))"
+                " and all(implies(j < len(L0) - 1, lines[j] == L0[j]) for j in range(len(L0))))", props=["C11", "C05"]),
+            "structure.append": Clause(
+                "implies(not merge(), len(lines) == len(L0) + len(w0)"
+                " and all(lines[len(L0) + k] == w0[k] for k in range(len(w0)))"
+                " and all(lines[j] == L0[j] for j in range(len(L0))))", props=["C11", "C05"]),
+            # C05 width bound of a merged line, indent included.  Known finding on this tree: the merge test
+            # ignores the indent; the residual (no indent) is proved.
+            "merged.fits": Clause("implies(merge(), lastcol() + len_fn(lines[len(L0) - 1]) <= width)",
+                                  props=["C05"], finding="C05-semantic-merge-indent"),
+            "merged.fits.residual": Clause("implies(merge() and lastcol() == 0, lastcol() + len_fn(lines[len(L0) - 1]) <= width)",
+                                           props=["C05"]),
+            # C11 locality premises: V.prefix_stable and V.carry_only
+            "prefix_stable": Clause("len(lines) >= len(L0) and all(implies(j < len(L0) - 1, lines[j] == L0[j]) for j in range(len(L0)))",
+                                    props=["C11"]),
+            "break_after_sentence": Clause(
+                "implies(len(L0) > 0 and len_fn(L0[len(L0) - 1]) >= min_line_len,"
+                " len(lines) == len(L0) + len(w0) and all(lines[j] == L0[j] for j in range(len(L0))))", props=["C11"]),
+        },
+        decreases="len(sentences) - _i")},
+    ensures={
+        # C05/C03: no wrapping = one line, whitespace runs collapsed exactly as in fill mode
+        "no_wrap": Clause("implies(width <= 0, result == initial_indent + strip(call('re.sub', '\\\\s+', ' ', replace(old('text'), '\\n', ' '))))",
+                          props=["C05", "C03"]),
+        "joined": Clause("implies(width > 0, result == call('denormalize_adjacent_tags', joinr('\\n', lines, 0, len(lines))))",
+                         props=["C05"]),
+        # C05: every line carries the configured first-line or continuation indent
+        "indents": Clause("implies(width > 0, len(lines) == len(pre) and all(lines[k] == prefix(k) + pre[k] for k in range(len(lines))))",
+                          props=["C05"]),
+    },
+    canaries=[
+        ("length(lines[-1]) < min_line_len\n                and length", "length(lines[-1]) <= min_line_len\n                and length", None, ["iter-ensures"]),
+        ("                wrapped.pop(0)\n", "", None, ["iter-ensures"]),
+        ("subsequent_offset=subsequent_indent_len,", "subsequent_offset=initial_indent_len,", None, ["call["]),
+        ("current_column = initial_indent_len if first_line else subsequent_indent_len", "current_column = initial_indent_len", None, ["call["]),
+        ("            first_line = False\n", "", None, ["inv-preserve", "call["]),
+    ],
+))
